@@ -25,6 +25,8 @@ NumS(s)              == [Blank("num") EXCEPT !.vs = s]
 Fn(fn, args)         == [Blank("fn") EXCEPT !.fn = fn, !.args = args]
 NegN(c)              == [Blank("neg") EXCEPT !.args = <<c>>]
 Paren(c)             == [Blank("paren") EXCEPT !.args = <<c>>]
+\* unary plus: `+x` evaluates to x (a "paren" node whose fn is "+")
+Pos(c)               == [Blank("paren") EXCEPT !.args = <<c>>, !.fn = "+"]
 Agg(fn, by, grp, args) == [Blank("agg") EXCEPT !.fn = fn, !.by = by, !.grp = grp, !.args = args]
 Bin(fn, l, r)        == [Blank("bin") EXCEPT !.fn = fn, !.args = <<l, r>>]
 BinM(fn, l, r, bool, card, on, ml, inc) ==
